@@ -115,6 +115,18 @@ def gen_case(rng, nsteps, bias=None):
         case.append("peer close")
         case += ["run"] * rng.range(1, 3)
         if rng.chance(1, 3): case += ["start", "run"]
+    if kind == "tcp":
+        # TCP: a full close with a large write in flight (either order) makes the kernel answer RST, which discards data
+        # still queued towards the stream - not bytes the descriptor ever receives.  Half-close instead (the harness
+        # enforces the same rule); the wbig + full close after-life class runs on Unix-socket streams.
+        wb = pc = False
+        for i, c in enumerate(case):
+            if c == "wbig":
+                if pc: case[i] = "run"
+                else: wb = True
+            elif c == "peer close":
+                if wb: case[i] = "peer shut"
+                else: pc = True
     case.append("end")
     return case
 
@@ -142,6 +154,7 @@ def monitor(case, out):
     in_cb = False
     i = 0
     eof_seen = False
+    reset_seen = False      # a read error (ECONNRESET, EPIPE, ...) ends the delivery obligation
     while i < len(out):
         l = out[i]; w = l.split(); i += 1
         if l.startswith("#harness-env-failure"):
@@ -213,7 +226,7 @@ def monitor(case, out):
                 delivered += n
             if n == EOF:
                 if b != "-": st["eof_read0"] += 1
-                if delivered != sent:
+                if delivered != sent and not reset_seen:
                     if kind == "ipc" and fdmsgs and b == "-":
                         raise Bad(SIG_IPC, f"IPC pipe: UV_EOF reported on POLLHUP after a short read at a descriptor-message boundary; "
                                            f"{sent - delivered} of {sent} bytes the peer wrote were never delivered")
@@ -229,6 +242,7 @@ def monitor(case, out):
                 raise Bad("transient-errno-reported-as-read-error", f"read_cb({n}): a transient {'EINTR' if n == -4 else 'EAGAIN'} from "
                           f"{'recvmsg' if kind == 'ipc' else 'read'} was reported as a read error ({sent - delivered} bytes undelivered)")
             elif n < 0:
+                reset_seen = True
                 quiet, why = True, f"a read error ({n}) was reported and uv_read_start not called since"
         elif w[0] == "ret":
             rc = int(w[2])
